@@ -61,6 +61,9 @@ type monComp struct {
 	Pair pairState
 	Work queueing.Buffer[int]
 	B    int
+	// Table["k"] is replaced by a fresh slice twice per tick: {n, -1} in the
+	// middle of the handler, {n, n} at its end.
+	Table map[string][]int
 
 	budget int
 	done   int
@@ -108,6 +111,7 @@ func (c *monComp) Tick() bool {
 	w.busy++
 	c.A++
 	c.Pair.X++
+	c.Table["k"] = []int{c.A, -1}
 	for i := 0; i < 5; i++ {
 		sched.Yield("tick:after-first-half") // a handler that takes a while between its two updates
 	}
@@ -118,6 +122,7 @@ func (c *monComp) Tick() bool {
 	c.Work.Pop()
 	c.B++
 	c.Pair.Y++
+	c.Table["k"] = []int{c.B, c.B}
 	c.times = append(c.times, uint64(w.eng.CurrentTime()))
 	c.done++
 	w.busy--
@@ -125,7 +130,7 @@ func (c *monComp) Tick() bool {
 	return c.done < c.budget
 }
 
-var reqKinds = []string{"pause", "continue", "state", "now", "tick", "tick", "component", "component", "field", "field", "buffers", "progress", "progress", "list"}
+var reqKinds = []string{"pause", "continue", "state", "now", "tick", "tick", "component", "component", "field", "field", "page", "page", "buffers", "progress", "progress", "list"}
 
 func genC40(r *kit.Rand, tier kit.Tier) MonCase {
 	c := MonCase{Parallel: r.Chance(1, 2), Procs: r.Range(2, 3), Gs: r.Range(1, 2), Seed: r.Uint64()}
@@ -153,6 +158,7 @@ func (w *monWorld) request(h http.Handler, q MonReq) {
 		"pause": "/api/pause", "continue": "/api/continue", "state": "/api/engine/state", "now": "/api/now",
 		"tick": "/api/tick/" + name, "component": "/api/component/" + name,
 		"field":   "/api/field/" + url.PathEscape(fmt.Sprintf(`{"comp_name":%q,"field_name":"Pair"}`, name)),
+		"page":    "/api/field/" + url.PathEscape(fmt.Sprintf(`{"comp_name":%q,"field_name":"Table.k"}`, name)) + "?slice_offset=0&slice_limit=10",
 		"buffers": "/api/hangdetector/buffers?sort=level", "progress": "/api/progress", "list": "/api/list_components",
 	}[q.Kind]
 
@@ -208,6 +214,31 @@ func (w *monWorld) request(h http.Handler, q MonReq) {
 		if a != b {
 			w.torn++
 			v := kit.Violate("monitor", "C40:inspection-sees-handler-midway["+w.kind()+"]", "GET %s returned the component with its two halves at %d and %d: the inspection ran while a tick handler of %s was between its two updates (%s engine)", path, a, b, name, w.kind())
+
+			if w.c.Parallel {
+				w.fail(v.Sig, "%s", v.Detail)
+			} else if w.known == nil {
+				w.known = v
+			}
+		}
+	case "page":
+		var doc struct {
+			Dict map[string]struct {
+				V any `json:"v"`
+			} `json:"dict"`
+		}
+
+		_ = json.Unmarshal([]byte(body), &doc)
+		a, okA := doc.Dict["1"].V.(float64)
+		b, okB := doc.Dict["2"].V.(float64)
+
+		if !okA || !okB {
+			panic(kit.HarnessError("cannot find the two slice elements in the paged monitor response: " + head1(body)))
+		}
+
+		if a != b {
+			w.torn++
+			v := kit.Violate("monitor", "C40:inspection-sees-handler-midway["+w.kind()+"]", "GET %s returned the slice [%v %v], which the component holds only in the middle of a tick handler (%s engine)", path, a, b, w.kind())
 
 			if w.c.Parallel {
 				w.fail(v.Sig, "%s", v.Detail)
@@ -294,7 +325,7 @@ func runMon(c *MonCase, reqs []MonReq) (*monWorld, *sched.Sched, any) {
 		mon.RegisterEngine(w.eng)
 
 		for i, b := range c.Budgets {
-			mc := &monComp{budget: b, w: w, Work: queueing.NewBuffer[int](fmt.Sprintf("Comp%d.Work", i), 4)}
+			mc := &monComp{budget: b, w: w, Table: map[string][]int{"k": {0, 0}}, Work: queueing.NewBuffer[int](fmt.Sprintf("Comp%d.Work", i), 4)}
 			mc.TickingComponent = modeling.NewTickingComponent(fmt.Sprintf("Comp%d", i), w.eng, 1*timing.GHz, mc)
 			w.comps = append(w.comps, mc)
 			w.total += uint64(b)
